@@ -15,7 +15,7 @@ SPEC_PRIMS = {
     "is_none", "is_bool", "is_int", "is_float", "is_num", "is_str", "is_arr", "is_obj", "is_nothing", "is_nodelist",
     "is_tuple", "is_pattern", "is_container", "nvals", "prog_len", "prog_at", "is_gen", "is_slice", "is_enum", "is_exc", "is_userfunc", "Node", "NodeList", "Ctx", "nkeys", "key_at", "val_at", "has_key",
     "get", "num", "seq", "pending", "implies", "iff", "old", "raised", "exc_is", "same", "slice_of", "int_of", "str_of",
-    "codepoint", "char", "ucall", "regex_fullmatch", "regex_search", "iregexp_ok", "str_count", "str_rfind", "int_str",
+    "codepoint", "char", "ucall", "regex_fullmatch", "regex_search", "iregexp_ok", "str_count", "str_rfind", "int_str", "exc_message",
     "canonical", "is_hexdigit_code", "finditer_outcome", "compile_outcome", "is_pynum", "is_pylist", "is_pyobject", "obj_eq", "slice_parts", "py_equal", "float_of", "truthy", "mk_list", "mk_tuple", "enum_ord", "func_id",
 }
 
@@ -593,6 +593,8 @@ class CallMixin(ExprMixin):
         if name == "str_rfind":
             f = self.uf("str_rfind", z3.StringSort(), z3.StringSort(), z3.IntSort(), z3.IntSort(), z3.IntSort())
             return self.int_(f(self.str_term(a[0]), self.str_term(a[1]), self.int_term(a[2]), self.int_term(a[3])))
+        if name == "exc_message":
+            return T("str", self.uf("exc_message", self.V, z3.StringSort())(box()))
         if name == "int_str":
             return T("str", self.uf("int_str", z3.IntSort(), z3.StringSort())(self.int_term(a[0])))
         if name == "canonical":
@@ -771,6 +773,9 @@ class CallMixin(ExprMixin):
                     return self.call_contract(f"{ci.module}:{c}.{name}", recv, args, kwargs, st)
             if name == "__init__":
                 return self.ok(T("V", U.none), st)  # object.__init__ / Exception.__init__
+            if name == "__str__" and not args and isinstance(recv, T) and recv.kind == "V":
+                # Exception.__str__: the message the exception was built with (not modelled: an uninterpreted string)
+                return self.ok(T("str", self.uf("exc_message", self.V, z3.StringSort())(recv.t)), st)
             raise Unsupported(f"super().{name}")
         if isinstance(recv, Rec):
             c, fn = src.find_method(recv.cls, name)
